@@ -1373,6 +1373,6 @@ pub fn generate(p: P, rng: &mut Prng, run: u64, t: &Tier) -> Vec<Ev> {
         P::C14 => gen_c14(rng, run, t),
         P::C15 => gen_c15(rng, run, t),
         P::C16 => gen_c16(rng, run, t),
-        P::C18 => gen_c05(rng, run, t),
+        P::C18 => crate::c18::gen_c18(rng, run, t),
     }
 }
